@@ -2,8 +2,8 @@
 
 TIERS = {
     "C07": {
-        "quick": {"cases": 3000, "min_steps": 20, "max_steps": 60, "wall": 900, "echo": 32, "shrink_s": 25},
-        "thorough": {"cases": 150000, "min_steps": 20, "max_steps": 80, "wall": 7200, "echo": 128, "shrink_s": 40},
+        "quick": {"cases": 3000, "min_steps": 20, "max_steps": 60, "wall": 900, "echo": 160, "shrink_s": 25},
+        "thorough": {"cases": 150000, "min_steps": 20, "max_steps": 80, "wall": 7200, "echo": 1500, "shrink_s": 40},
     },
     "C17": {
         "quick": {"cases": 24000, "configs": 4, "wall": 600},
